@@ -348,13 +348,36 @@ func (s *Solver) GetValues(ts []*Term) ([]uint64, error) {
 		return out, nil
 	}
 	s.send("(get-value (" + strings.Join(names, " ") + "))")
-	// read balanced s-expression
+	// read balanced s-expression (model construction can run away too: same watchdog)
 	var sb strings.Builder
 	depth := 0
 	started := false
+	deadline := time.After(time.Duration(s.hardMs) * time.Millisecond)
 	for {
-		line, err := s.out.ReadString('\n')
+		type lr struct {
+			line string
+			err  error
+		}
+		ch := make(chan lr, 1)
+		go func() {
+			l, e := s.out.ReadString('\n')
+			ch <- lr{l, e}
+		}()
+		var line string
+		var err error
+		select {
+		case x := <-ch:
+			line, err = x.line, x.err
+		case <-deadline:
+			fmt.Fprintf(os.Stderr, "solver: get-value exceeded %d ms, abandoned\n", s.hardMs)
+			s.cmd.Process.Kill()
+			go s.cmd.Wait()
+			s.dead = true
+			<-ch
+			return nil, fmt.Errorf("solver: get-value abandoned")
+		}
 		if err != nil {
+			s.dead = true
 			return nil, err
 		}
 		if strings.HasPrefix(strings.TrimSpace(line), "(error") {
